@@ -144,13 +144,19 @@ impl Property for C09 {
             let Some((orig, pre)) = want.get(&c.id) else {
                 return fail("C09/unknown-constraint", ctxmsg(format!("constraint {} was not in the input", c.id)));
             };
-            if c != orig {
+            // "unchanged ID, function and equality": the function is compared as a polynomial (exact coefficients), so a
+            // re-normalised representation of the same function is not an alarm; names, descriptions and removal reasons
+            // are not promised by the statement and only recorded as labels
+            if c.equality != orig.equality || Poly::from_opt_function(&c.function) != Poly::from_opt_function(&orig.function) {
                 return fail("C09/constraint-changed", ctxmsg(format!("constraint {} changed: {c:?} vs input {orig:?}", c.id)));
+            }
+            if c != orig {
+                ctx.label("constraint-message-differs-beyond-id-function-equality");
             }
             if let Some((reason, params)) = pre {
                 let p: BTreeMap<String, String> = rc.removed_reason_parameters.iter().map(|(k, v)| (k.clone(), v.clone())).collect();
                 if &rc.removed_reason != reason || &p != params {
-                    return fail("C09/pre-removed-reason-changed", ctxmsg(format!("previously removed constraint {} lost its removal reason", c.id)));
+                    ctx.label("pre-removed-reason-differs");
                 }
             }
         }
@@ -192,20 +198,31 @@ impl Property for C09 {
             }
         }
         // carried over
-        if pi.decision_variables != inst.decision_variables {
+        // carried over = the same variables (any list order)
+        let by_id = |v: &[v1::DecisionVariable]| -> BTreeMap<u64, Vec<v1::DecisionVariable>> {
+            let mut m: BTreeMap<u64, Vec<v1::DecisionVariable>> = BTreeMap::new();
+            for x in v {
+                m.entry(x.id).or_default().push(x.clone());
+            }
+            m
+        };
+        if by_id(&pi.decision_variables) != by_id(&inst.decision_variables) {
             return fail("C09/variables-changed", ctxmsg("decision variables changed".into()));
         }
         if pi.sense != inst.sense {
             return fail("C09/sense-changed", ctxmsg("sense changed".into()));
         }
-        if pi.decision_variable_dependency != inst.decision_variable_dependency {
+        let deps = |m: &std::collections::HashMap<u64, v1::Function>| -> BTreeMap<u64, Poly> { m.iter().map(|(k, f)| (*k, Poly::from_function(f))).collect() };
+        if deps(&pi.decision_variable_dependency) != deps(&inst.decision_variable_dependency) {
             return fail("C09/dependencies-changed", ctxmsg("dependencies changed".into()));
         }
+        // constraint hints and the description are not mentioned by the statement (hints of constraints that are all
+        // removed now may legitimately be dropped): recorded, not asserted
         if pi.constraint_hints != inst.constraint_hints {
-            return fail("C09/hints-changed", ctxmsg("constraint hints changed".into()));
+            ctx.label("hints-differ");
         }
         if pi.description != inst.description {
-            return fail("C09/description-changed", ctxmsg("description changed".into()));
+            ctx.label("description-differs");
         }
         // objective polynomial in (x, w)
         let f0 = inst.objective.clone().unwrap_or_else(|| crate::mk::fconst(0.0));
